@@ -387,7 +387,8 @@ class SRC:
 
         if config.allow_plugins:
             value = self.parse(hexwords)
-            if value != '' and value != 'null':
+            # A parser that returns nothing (None or '') adds no details
+            if value and value != 'null':
                 out["SRC Details"] = json.loads(value)
 
         return out
